@@ -70,10 +70,11 @@ def main(tier, replay=None):
         return 0
     W = 8 if tier == "quick" else min(16, core.ncpu())
     det = determinism_selftest(exe, "C20", ["nofault", "iofault", "outfault"], seed, 80 if tier == "quick" else 1000, W, 3)
-    secs = 6 if tier == "quick" else 240
-    batches = [Batch("nofault", exe, "C20", "nofault", seed, 10**8, secs, W, samples=True).run(),
-               Batch("iofault", exe, "C20", "iofault", seed, 10**8, secs, W, samples=True).run(),
-               Batch("outfault", exe, "C20", "outfault", seed, 10**8, max(3, secs // 2), W, samples=True).run()]
+    q = tier == "quick"
+    secs = 90 if q else 240
+    batches = [Batch("nofault", exe, "C20", "nofault", seed, 12000 if q else 10**8, secs, W, samples=True).run(),
+               Batch("iofault", exe, "C20", "iofault", seed, 12000 if q else 10**8, secs, W, samples=True).run(),
+               Batch("outfault", exe, "C20", "outfault", seed, 6000 if q else 10**8, secs // 2, W, samples=True).run()]
     violations, known, nondet = handle_candidates("C20", batches, budget=250)
     fidelity = fidelity_crosscheck(exe, seed, 15 if tier == "quick" else 400)
     if fidelity.get("mismatches"):
